@@ -199,7 +199,16 @@ def check_pairs(doc, log, rec, vals, vecs, K11, M11, site):
 def run(doc, log):
     doc0 = doc
     w = build(doc)
-    job = fem.FreeVibration(w.items, w.boundaries)
+    if doc["seed"] % 3 == 0 and w.boundaries:
+        # the job is created with the caller's (still empty) dictionary, which is filled afterwards
+        filled = dict(w.boundaries)
+        shared = fem.BoundaryDict() if doc["seed"] % 2 else {}
+        job = fem.FreeVibration(w.items, shared)
+        shared.update(filled)
+        w.boundaries = shared
+        log.count("boundaries-filled-after-construction")
+    else:
+        job = fem.FreeVibration(w.items, w.boundaries)
     bounds0 = dict(w.boundaries)
     sim = SimEigsh(log, doc.get("fault"))
     K, M, dof1 = independent_operators(doc, w)
